@@ -13,7 +13,7 @@ Theorem call_refines_loop : forall (M : module) (P : program) (fn : func) (n : n
   elab_func (genv_of M) (genvl M) fn = EOk tf -> lower_func (m_structs M) (glnames M) tf = LOk F ->
   tf_body tf = tl ++ [TRet (Some te)] -> length tl = length l -> forallb tok (flat_map (wtopexprs n) tl ++ [te]) = true ->
   lits_exact (flat_map tflits (flat_map (wtopexprs n) tl ++ [te])) -> (forall q, In q (flat_map tflits (flat_map (wtopexprs n) tl ++ [te])) -> PrimFloat.eqb q q = true) ->
-  Forall (fresh_decl (glnames M) (argnames fn)) l ->
+  Forall (fresh_decl (glnames M) (argnames fn)) l -> fors_fresh (glnames M) (argnames fn) (fenv M fn) l ->
   (forall x, In x (map snd (f_args fn)) -> ~ In x (glnames M)) -> NoDup (map snd (f_args fn)) ->
   find (fun f => String.eqb (f_name f) (f_name fn) && f_export f) (m_funcs M) = Some fn -> find_func P (f_name fn) = Some F ->
   forall (ws : list rval) (g : RefSem.frame) (vs : vmstate),
@@ -22,13 +22,13 @@ Theorem call_refines_loop : forall (M : module) (P : program) (fn : func) (n : n
       exists v vs', s = SV v /\ GA M g' vs' /\
         exists N, forall fuel', N <= fuel' -> invoke fuel' P (f_name fn) (combine (map snd (f_args fn)) (map v_of ws)) vs = Done (v_of v) vs'.
 Proof.
-  intros M P fn n l e tf F tl te Hbody Hs Hp Helab Hlower Htb Hlen Hk Hlit Hnan Hfr Hdist Hnd Hfind HfindP ws g vs Hargs Hga fuel s g' Hinv.
+  intros M P fn n l e tf F tl te Hbody Hs Hp Helab Hlower Htb Hlen Hk Hlit Hnan Hfr Hff Hdist Hnd Hfind HfindP ws g vs Hargs Hga fuel s g' Hinv.
   assert (Hlw : length ws = length (f_args fn)) by (clear -Hargs; induction Hargs; cbn; congruence).
   rewrite (ref_invoke_unfold M fuel _ _ g fn Hfind) in Hinv.
   pose proof (ref_bind_combine (f_args fn) ws [] [] Hnd eq_refl Hlw) as Hb. cbn [app] in Hb. rewrite Hb in Hinv. cbn [rbind] in Hinv.
   change {| locals := [[]; combine (map snd (f_args fn)) (map SV ws)]; globs := g |} with (call_state fn ws g) in Hinv.
   destruct (exec_list M fuel (f_body fn) (call_state fn ws g)) as [[fl st']| | |] eqn:Ex; cbn [rbind] in Hinv; try discriminate.
-  destruct (loop_function_simulation M fn n l e tf F Hbody Hs Hp Helab Hlower tl te Htb Hlen Hk Hlit Hnan Hfr P ws g vs Hargs Hdist Hga fuel fl st' Ex)
+  destruct (loop_function_simulation M fn n l e tf F Hbody Hs Hp Helab Hlower tl te Htb Hlen Hk Hlit Hnan Hfr Hff P ws g vs Hargs Hdist Hga fuel fl st' Ex)
     as (v & vs' & -> & (N & Hrun) & (locals' & V' & A' & Hag) & Hnm).
   inversion Hinv; subst s g'; clear Hinv.
   exists v, vs'. split; [reflexivity|]. split.
@@ -51,7 +51,7 @@ Inductive fn_ok_loop (M : module) (P : program) (fn : func) : Prop :=
     elab_func (genv_of M) (genvl M) fn = EOk tf -> lower_func (m_structs M) (glnames M) tf = LOk F ->
     tf_body tf = tl ++ [TRet (Some te)] -> length tl = length l -> forallb tok (flat_map (wtopexprs n) tl ++ [te]) = true ->
     lits_exact (flat_map tflits (flat_map (wtopexprs n) tl ++ [te])) -> (forall q, In q (flat_map tflits (flat_map (wtopexprs n) tl ++ [te])) -> PrimFloat.eqb q q = true) ->
-    Forall (fresh_decl (glnames M) (argnames fn)) l ->
+    Forall (fresh_decl (glnames M) (argnames fn)) l -> fors_fresh (glnames M) (argnames fn) (fenv M fn) l ->
     (forall x, In x (map snd (f_args fn)) -> ~ In x (glnames M)) -> NoDup (map snd (f_args fn)) ->
     find (fun f => String.eqb (f_name f) (f_name fn) && f_export f) (m_funcs M) = Some fn -> find_func P (f_name fn) = Some F ->
     fn_ok_loop M P fn.
@@ -68,8 +68,8 @@ Proof.
     destruct (ref_invoke M fuel (f_name fn) (combine (map snd (f_args fn)) (map SV ws)) g) as [[s g1]| | |] eqn:Ei; cbn [rbind] in Href; try discriminate.
     destruct (ref_hist M fuel g1 r) as [[rs1 g2]| | |] eqn:Er; cbn [rbind] in Href; try discriminate. inversion Href; subst rs g'; clear Href. cbn [fst snd].
     destruct (Hok (fn, ws) (or_introl eq_refl)) as [Hfn Hty]. cbn [fst snd] in Hfn, Hty.
-    destruct Hfn as [n l e tf F tl te H1 H2 H3 H4 H5 H6 H7 H8 H9 H10 H11 H12 H13 H14 H15].
-    destruct (call_refines_loop M P fn n l e tf F tl te H1 H2 H3 H4 H5 H6 H7 H8 H9 H10 H11 H12 H13 H14 H15 ws g vs Hty Hga fuel s g1 Ei) as (v & vs1 & -> & Hga1 & n1 & Hrun1).
+    destruct Hfn as [n l e tf F tl te H1 H2 H3 H4 H5 H6 H7 H8 H9 H10 H11 H11f H12 H13 H14 H15].
+    destruct (call_refines_loop M P fn n l e tf F tl te H1 H2 H3 H4 H5 H6 H7 H8 H9 H10 H11 H11f H12 H13 H14 H15 ws g vs Hty Hga fuel s g1 Ei) as (v & vs1 & -> & Hga1 & n1 & Hrun1).
     destruct (IH (fun c Hc => Hok c (or_intror Hc)) fuel g1 vs1 rs1 g2 Hga1 Er) as (n2 & Hrun2).
     exists (Nat.max n1 n2). intros fuel' Hf. destruct (Hrun2 fuel' ltac:(lia)) as (vl & vs' & Hh & Hf2 & Hga2).
     exists (v_of v :: vl), vs'. cbn [vm_hist]. rewrite (Hrun1 fuel' ltac:(lia)), Hh. split; [reflexivity|]. split; [|exact Hga2].
